@@ -334,6 +334,7 @@ func runC16(c *Ctx) {
 				}
 			}
 		}
+		R.Check(doneDeferred, "C16.R3", "consumeSingleCommand:done-deferred", c.at(addCall), "the registration of a command is released however its handler ends (return, runtime.Goexit, a panic recovered further up)", "wg.Done is deferred right after wg.Add", "wg.Done is an ordinary call after the handler: when the handler's goroutine leaves through runtime.Goexit (e.g. t.FailNow / require in a handler) the registration is never released and every later Close blocks forever although no handler is running")
 		R.Check(ok, "C16.R3", "consumeSingleCommand:add-done-bracket", c.at(addCall), "wg.Add(1) and wg.Done() bracket the command handler on every path", "Add dominates the handler call; Done follows it on every path to a return", "the handler call is not bracketed by wg.Add / wg.Done on every path (Close may return early or wait forever)")
 	}
 	// Serve: closer goroutine and net.ErrClosed
